@@ -124,8 +124,10 @@ func c16(w *core.World, r *core.Report) {
 
 	// the guard-cleanup closure is the one caller of CleanupTransaction without tmMutex
 	cleanupClosureReason := "the guard's cleanup closure runs in TransactionSet under dmutex (which excludes Confirm/Cancel) and only when the rollback timer was not started (error / dry-run / failed validation), so no other manager method can run concurrently"
+	roles := roleFns(w)
 	lw := w.Locks(func(e core.Edge) bool {
-		return strings.HasPrefix(core.FuncKey(e.Caller), kRegisterTx+"$") && e.Callee != nil && core.FuncKey(e.Callee) == kCleanupTx
+		// the closure handed to NewTransactionGuard, whatever it is called and wherever it is built
+		return roles[e.Caller] == "<guard cleanup>" && e.Callee != nil && core.FuncKey(e.Callee) == kCleanupTx
 	})
 
 	// ---- GUARDED-BY
@@ -262,10 +264,16 @@ func c16(w *core.World, r *core.Report) {
 						tparam = p
 					}
 				}
-				for _, c := range core.OwnCallsTo(f, kRollbackIface) {
-					ok := tparam != nil && core.GuardedByEq(c, true,
-						func(v ssa.Value) bool { return core.FieldOf(v) == kTMSlot },
-						func(v ssa.Value) bool { return core.HasOrigin(v, tparam) })
+				if core.IsInlined(f) {
+					continue // judged as part of the method it is inlined into
+				}
+				for _, c := range core.CallsTo(f, kRollbackIface) {
+					ok := false
+					core.WithHost(f, func() {
+						ok = tparam != nil && core.GuardedByEq(c, true,
+							func(v ssa.Value) bool { return core.FieldOf(v) == kTMSlot },
+							func(v ssa.Value) bool { return core.HasOrigin(v, tparam) })
+					})
 					r.Check(ok, "EXPIRY-IDENTITY", core.Site(f, "rollback guarded by slot == expired transaction"), w.InstrPos(c), "the expired timer's own transaction object must still be the registered one")
 				}
 			}
